@@ -6,6 +6,7 @@ from concurrent.futures import ThreadPoolExecutor
 from common import VERIF, ENV, run, cache_get, cache_put, repo_hash, machinery_hash
 
 LABEL_RE = re.compile(r'"((?:U\d+|K|X)\.[A-Za-z0-9_.\-]+)"')
+CLASSIFIER_VERSION = "k1"  # bump when parse_output/classify change meaning
 BOUND_MARKERS = ("unwinding assertion", "vmap capacity exceeded", "recursion unwinding")
 
 
@@ -36,6 +37,24 @@ def harness_sources():
             attrs = text[m.start():m2.start()]
             out[name] = {"file": fn, "body": text[i:j + 1], "attrs": attrs}
     return out
+
+
+def support_hash(srcs):
+    """hash of everything a harness can depend on besides its own body: the verification sources with the
+    bodies of the #[kani::proof] functions removed, and the runner itself"""
+    import hashlib
+    h = hashlib.sha256()
+    d = os.path.join(VERIF, "kani", "verif")
+    for fn in sorted(os.listdir(d)):
+        if not fn.endswith(".rs"):
+            continue
+        text = open(os.path.join(d, fn)).read()
+        for name, s in srcs.items():
+            if s["file"] == fn:
+                text = text.replace(s["body"], "{/*" + name + "*/}")
+        h.update(fn.encode() + b"\0" + text.encode())
+    h.update(CLASSIFIER_VERSION.encode())
+    return h.hexdigest()
 
 
 def labels_of(src):
@@ -158,14 +177,14 @@ def run_harness(crate, tdir, entry, src):
 def run_all(scratch, entries, jobs=12, mem_budget_gb=48, log=print):
     """entries: registry records.  Returns {harness: result}; uses the content-addressed cache."""
     srcs = harness_sources()
-    base = repo_hash() + machinery_hash()
+    base = repo_hash() + support_hash(srcs)
     results, todo = {}, []
     for e in entries:
         if e["harness"] not in srcs:
             results[e["harness"]] = {"obligations": {f"K.{e['harness']}.safety": "undecided"}, "reason": "harness source not found (lost anchor)", "wall_s": 0, "cached": False}
             continue
         import hashlib, json
-        key = hashlib.sha256((base + json.dumps(e, sort_keys=True)).encode()).hexdigest()
+        key = hashlib.sha256((base + json.dumps(e, sort_keys=True) + srcs[e["harness"]]["body"] + srcs[e["harness"]]["attrs"]).encode()).hexdigest()
         c = cache_get(key)
         if c is not None and not any(v == "undecided" for v in c["obligations"].values()):
             c["cached"] = True
